@@ -297,7 +297,7 @@ class G(object):
     def discinfo(self):
         r = self.rng
         d = self.m["discinfo"].DiscInfo()
-        d.timestamp = r.choice([1417653453.026288, 1.5, 0.25, 2.0 ** 40 + 0.5, 123456789.0])
+        d.timestamp = r.choice([1417653453.026288, 1.5, 0.25, 2.0 ** 40 + 0.5, 123456789.0, 1758880000.1234567, 3e-7, r.random() * 10 ** r.randint(0, 12)])
         d.description = self.text()
         d.arch = r.choice(ARCHES)
         d.disc_numbers = r.choice([["ALL"], [1], [1, 2, 3], [2, 10]])
